@@ -9,6 +9,7 @@ import (
 
 	"github.com/dominant-strategies/go-quai/common"
 	"github.com/dominant-strategies/go-quai/crypto"
+	"github.com/dominant-strategies/go-quai/ethdb"
 	"github.com/dominant-strategies/go-quai/ethdb/memorydb"
 	"github.com/dominant-strategies/go-quai/trie"
 	"pgregory.net/rapid"
@@ -83,8 +84,17 @@ func rebuild(secure bool, order []kv) (common.Hash, error) {
 	return t.Hash(), nil
 }
 
+var histCaseNo int
+
 func propHistory(t *rapid.T) {
 	const part = "history"
+	// the node database flushes its write batch early once it holds more than
+	// ethdb.IdealBatchSize (100 KiB; a variable under the verif build tag): two cases out of three
+	// lower it so that Commit and Cap of these small tries cross the threshold several times
+	histCaseNo++
+	flushAt := []int{100 * 1024, 48, 400}[histCaseNo%3]
+	defer func(v int) { ethdb.IdealBatchSize = v }(ethdb.IdealBatchSize)
+	ethdb.IdealBatchSize = flushAt
 	c := &histCase{content: map[string][]byte{}, raw: map[string][]byte{}, kinds: map[string]bool{}}
 	c.secure = rapid.Bool().Draw(t, "secure")
 	if c.secure {
@@ -271,6 +281,19 @@ func propHistory(t *rapid.T) {
 			c.log("commit", fmt.Sprintf("flush=%v", flush))
 			doCommit(flush)
 		},
+		// the node database is told to shed memory (the node does this between blocks): dirty nodes
+		// go to disk oldest first, in batches of the flush threshold; content and root are unaffected
+		"cap": func(t *rapid.T) {
+			limit := rapid.SampledFrom([]int{0, 0, 64, 600}).Draw(t, "capLimit")
+			c.log("cap", fmt.Sprint(limit))
+			doCommit(false)
+			if err := c.tdb.Cap(common.StorageSize(limit)); err != nil {
+				fail("C18/db-cap-error/"+kindName, err.Error())
+			}
+			c.kinds["cap"] = true
+			checkRoot("after cap")
+			checkLeaves("cap")
+		},
 		"reload": func(t *rapid.T) {
 			// reopen at the committed root from the same node database
 			c.log("reload", "same-db")
@@ -400,6 +423,10 @@ func propHistory(t *rapid.T) {
 	if c.commits > 0 {
 		labels = append(labels, "commit")
 	}
+	if c.kinds["cap"] {
+		labels = append(labels, "cap")
+	}
+	labels = append(labels, fmt.Sprintf("flush_threshold:%d", flushAt))
 	if c.bulk > 0 {
 		labels = append(labels, "bulk_parallel_hasher")
 	}
